@@ -132,8 +132,43 @@ pub fn run(ctx: &Ctx) {
     ctx.assume("the reference layouts are transcribed from the specifications as recalled offline (no network); every constant is commented with its source in refenc.rs");
     let seed = ctx.seed;
     table_list(ctx, "c04.directed", directed_programs(ALL, seed), &oracle, &nontrivial);
+    generic_address_helpers(ctx);
     one_field_sweep(ctx);
     table_pt(ctx, "c04.random", ALL, ctx.scale(8_000, 400_000), &oracle, &nontrivial);
+}
+
+/// `sdt::GenericAddress::{io_port_address, mmio_address}`: the 12-byte generic address structure
+/// (ACPI 6.5 5.2.3.2) for the caller's address, with the access size of the type parameter
+fn generic_address_helpers(ctx: &Ctx) {
+    use acpi_tables::sdt::GenericAddress;
+    use zerocopy::IntoBytes;
+    let mut vs = Vec::new();
+    let mut n = 0u64;
+    let mut check = |what: &str, g: GenericAddress, space: u8, bytes: u8, addr: u64| {
+        n += 1;
+        let mut want = vec![space, 8 * bytes, 0, [0u8, 1, 2, 0, 3, 0, 0, 0, 4][bytes as usize]];
+        want.extend_from_slice(&addr.to_le_bytes());
+        if g.as_bytes() != want.as_slice() {
+            vs.push(Violation::new("C04", "sdt::GenericAddress", "layout-diff", what.to_string(), format!("addr={:#x} got={:02x?} want={:02x?}", addr, g.as_bytes(), want)));
+        }
+    };
+    for addr in crate::props::c08::special_values() {
+        check("mmio_address::<u8>", GenericAddress::mmio_address::<u8>(addr), 0, 1, addr);
+        check("mmio_address::<u16>", GenericAddress::mmio_address::<u16>(addr), 0, 2, addr);
+        check("mmio_address::<u32>", GenericAddress::mmio_address::<u32>(addr), 0, 4, addr);
+        check("mmio_address::<u64>", GenericAddress::mmio_address::<u64>(addr), 0, 8, addr);
+        let p = addr as u16;
+        check("io_port_address::<u8>", GenericAddress::io_port_address::<u8>(p), 1, 1, p as u64);
+        check("io_port_address::<u16>", GenericAddress::io_port_address::<u16>(p), 1, 2, p as u64);
+        check("io_port_address::<u32>", GenericAddress::io_port_address::<u32>(p), 1, 4, p as u64);
+        check("io_port_address::<u64>", GenericAddress::io_port_address::<u64>(p), 1, 8, p as u64);
+    }
+    ctx.add_evals(n);
+    ctx.add_nontrivial_counted(n / 2);
+    ctx.add_engine("directed:c04.generic-address-helpers", n);
+    vs.sort_by_key(|v| v.sig());
+    vs.dedup_by_key(|v| v.sig());
+    ctx.report("c04.generic-address", serde_json::json!({"case": "generic-address-helpers"}), vs);
 }
 
 /// One field at a time: programs whose shape comes from a byte string as usual, but in which
@@ -188,6 +223,9 @@ fn one_field_sweep(ctx: &Ctx) {
 }
 
 pub fn replay(case: &serde_json::Value) -> Vec<Violation> {
+    if case.as_str() == Some("generic-address-helpers") {
+        return vec![]; // re-run by every check run (directed, no stored input)
+    }
     let p: Program = serde_json::from_value(case.clone()).expect("C04 case");
     oracle(&p)
 }
